@@ -172,3 +172,60 @@ func vpFailoverStaleCache(prop string) {
 // BOUND: topology 0; same scenario as VerifC01_q_bindVsRecreate (a Bind overlapping the deletion and re-creation of the pod under the same name with a new UID, symbolic window 0..12), checked under C04: the live incarnation keeps the IP it was bound with
 // ASSUME: C04: same scenario as VerifC01_q_bindVsRecreate, checked under C04
 func VerifC04_q_bindVsRecreate() { vpBindVsRecreate("C04") }
+
+// BOUND: topology 1; a deployment (replicas 1) with a reserving policy (immutable, never) or a named pool p1; its pod is bound, then deleted and the event handled, so that the address is kept in the app's / pool's reserve; the administrator's API release of that address runs while, as a second logical thread inside any one window right before/after an API-server or IPAM call of the release (symbolic window 0..10), the replacement pod is created, filtered (which re-keys the reserved address to it) and bound; the second thread parks wherever it needs a key lock the release holds; interleavings in which it would have to wait for the table lock are discarded. Every live bound pod must own its address afterwards
+func VerifC04_q_reserveReleaseVsRebind() { vpReserveReleaseVsRebind("C04") }
+
+func vpReserveReleaseVsRebind(prop string) {
+	w := vpNewWorld(1, prop == "C10")
+	if err := w.configure(); err != nil {
+		return
+	}
+	w.wrapIPAM()
+	w.setDeployment(1)
+	policy, pool := "", ""
+	switch nondetChoice(3) {
+	case 0:
+		policy = "immutable"
+	case 1:
+		policy = "never"
+	case 2:
+		pool = "p1"
+	}
+	name := vpPodNameOf(vpKindDp, 0)
+	w.createPod(vpMakePod(name, "U1", vpKindDp, policy, pool, ""))
+	w.syncListers()
+	nodes, err := w.filter(name, "n1", "n2", "n3")
+	if err != nil || len(nodes) == 0 || w.bind(name, nodes[0]) != nil {
+		return
+	}
+	w.setRunning(name)
+	ip := vpBoundIPs(w.pods[name])[0]
+	w.syncListers()
+	w.deletePod(name)
+	w.syncListers()
+	for len(w.pending) > 0 {
+		_ = w.handleEvent(0)
+	}
+	repl := vpPodNameOf(vpKindDp, 7)
+	w.interferer = func() {
+		w.createPod(vpMakePod(repl, "U2", vpKindDp, policy, pool, ""))
+		w.syncListers()
+		nodes, err := w.filter(repl, "n1", "n2", "n3")
+		if err != nil || len(nodes) == 0 {
+			return
+		}
+		if w.bind(repl, nodes[nondetChoice(len(nodes))]) == nil {
+			w.setRunning(repl)
+			w.syncListers()
+		}
+	}
+	w.windowAt = nondetInt(0, 10)
+	_ = w.apiRelease(ip)
+	w.finishInterference()
+	if w.interferer != nil {
+		return
+	}
+	verifReach("replacement-overlapped-release-of-the-reserve")
+	w.checkAll(prop, "an API release of a reserved address that overlapped the scheduling of the replacement pod")
+}
